@@ -91,6 +91,35 @@ def _sites():
     def s_replace_with_attached_other_doc(f, g):
         f.raw_directives[0].raw_account = g.raw_directives[0].raw_account
 
+    def s_payee_attached_no_narration(f, g):
+        h = edits.P().parse('2000-01-01 *\n  Assets:A  1 USD\n2000-01-02 * "x"\n', models.File)
+        pre = intro.pr(h)
+        yield
+        try:
+            h.raw_directives[0].raw_payee = h.raw_directives[1].raw_narration
+        finally:
+            if intro.pr(h) != pre:
+                raise AssertionError('refused raw_payee changed the document: ' + repr(intro.pr(h)[:40]))
+
+    def _cost_attached(form, attr):
+        def site(f, g):
+            h = edits.P().parse('2000-01-01 *\n  Assets:A  1 USD ' + form + '\n  Assets:B  3 + 4 USD\n', models.File)
+            pre = intro.pr(h)
+            yield
+            try:
+                setattr(h.raw_directives[0].raw_postings[0].raw_cost, attr, h.raw_directives[0].raw_postings[1].raw_number)
+            finally:
+                if intro.pr(h) != pre:
+                    raise AssertionError('refused ' + attr + ' on ' + form + ' changed the document: ' + repr(intro.pr(h)))
+        return site
+    s_cost_per_attached_total_amount = _cost_attached('{{2 EUR}}', 'raw_number_per')
+    s_cost_per_attached_total_currency = _cost_attached('{{EUR}}', 'raw_number_per')
+    s_cost_per_attached_total_empty = _cost_attached('{{}}', 'raw_number_per')
+    s_cost_total_attached_unit_currency = _cost_attached('{EUR}', 'raw_number_total')
+    s_cost_total_attached_unit_empty = _cost_attached('{}', 'raw_number_total')
+    s_cost_total_attached_unit_amount = _cost_attached('{2 EUR}', 'raw_number_total')
+    del _cost_attached
+
     def s_directive_other_doc(f, g):
         f.raw_directives.append(g.raw_directives[0])
     return {k[2:]: v for k, v in locals().items() if k.startswith('s_')}
@@ -113,6 +142,8 @@ def _run_site(name, fn):
                 pass
         else:
             fn(f, g)
+    except AssertionError as e:
+        return ('refused', 'changed', f'probe:{name}:refused-changed-text', str(e)[:300])
     except (ValueError, IndexError, KeyError, TypeError) as e:
         post = (intro.pr(f), intro.struct(f), intro.pr(g), intro.struct(g))
         tag = edits.exc_tag(e)
@@ -140,7 +171,9 @@ def _run_site(name, fn):
 MUST_REFUSE = {'claim_foreign', 'unclaim_foreign', 'claim_claimed', 'cost_illegal', 'cost_compound', 'raw_text_date', 'raw_text_bool',
                'spacing_foreign_token', 'spacing_own_token_elsewhere', 'slice_attached_last', 'ext_slice_size', 'view_slice_size',
                'missing_key', 'pop_oob', 'dup_in_batch', 'posting_attached', 'number_attached_slot',
-               'replace_with_attached_other_doc', 'directive_other_doc'}
+               'replace_with_attached_other_doc', 'directive_other_doc', 'payee_attached_no_narration',
+               'cost_per_attached_total_amount', 'cost_per_attached_total_currency', 'cost_per_attached_total_empty',
+               'cost_total_attached_unit_currency', 'cost_total_attached_unit_empty', 'cost_total_attached_unit_amount'}
 
 
 def run(ctx):
